@@ -62,69 +62,94 @@ namespace Gen
 def promoOrderCaptures : List Promo := [.queen, .rook, .knight, .bishop]
 def promoOrderQuietUnder : List Promo := [.rook, .knight, .bishop]
 
-/-- `generate_pawn_captures` (includes queen promotion pushes and en passant) -/
-def pawnCaptures (g : Game) (pawns : BB) (king : Sq) (theirs all checkMask orthPins diagPins : BB) :
-    Moves := do
-  let player := g.player
+/-- promotion captures of `generate_pawn_captures` -/
+def pawnPromoCaptures (player : Player) (pawns theirs checkMask orthPins diagPins : BB) : List Move :=
   let canCapture := pawns &&& ~~~orthPins
-  let canMove := pawns &&& ~~~diagPins
-  let available := ~~~all &&& checkMask
-  let singlePushAvail := BB.backward player available
-  let canPushOnce := canMove &&& singlePushAvail
   let targets := theirs &&& checkMask
   let willPromote := Game.pawnBackRank player.other
-  -- promotion captures
-  let m1 := (BB.toList (canCapture &&& willPromote)).flatMap fun pawn =>
+  (BB.toList (canCapture &&& willPromote)).flatMap fun pawn =>
     let attacks := pawnAttacks pawn player
     let attacks := if mem diagPins pawn then attacks &&& diagPins else attacks
     (BB.toList (attacks &&& targets)).flatMap fun t =>
       promoOrderCaptures.map fun pr => Move.capturePromotion pawn t pr
-  -- queen promotion pushes
-  let m2 ← (BB.toList (canPushOnce &&& willPromote)).mapM fun pawn => do
+
+/-- squares from which a pawn can step one square forward: not diagonally pinned, target empty and in
+the check mask -/
+def pawnCanPushOnce (player : Player) (pawns all checkMask diagPins : BB) : BB :=
+  let canMove := pawns &&& ~~~diagPins
+  let available := ~~~all &&& checkMask
+  canMove &&& BB.backward player available
+
+/-- promotion pushes (`which` = the promotion kinds of this stage) -/
+def pawnPromoPushes (player : Player) (which : List Promo) (pawns all checkMask orthPins diagPins : BB) :
+    Option (List (List Move)) :=
+  let willPromote := Game.pawnBackRank player.other
+  (BB.toList (pawnCanPushOnce player pawns all checkMask diagPins &&& willPromote)).mapM fun pawn => do
     let t ← pawn.forward player
-    pure (if !(mem orthPins pawn) then [Move.quietPromotion pawn t .queen] else [])
-  -- ordinary captures
-  let m3 := (BB.toList (canCapture &&& ~~~willPromote)).flatMap fun pawn =>
+    pure (if !(mem orthPins pawn) then which.map (Move.quietPromotion pawn t) else [])
+
+/-- ordinary captures of `generate_pawn_captures` -/
+def pawnPlainCaptures (player : Player) (pawns theirs checkMask orthPins diagPins : BB) : List Move :=
+  let canCapture := pawns &&& ~~~orthPins
+  let targets := theirs &&& checkMask
+  let willPromote := Game.pawnBackRank player.other
+  (BB.toList (canCapture &&& ~~~willPromote)).flatMap fun pawn =>
     let attacks := pawnAttacks pawn player
     let attacks := if mem diagPins pawn then attacks &&& diagPins else attacks
     (BB.toList (attacks &&& targets)).map fun t => Move.capture pawn t
-  -- en passant
-  let m4 ← (match g.ep with
-    | none => some []
-    | some epT => do
-      let capturedPawn ← epT.backward player
-      if (checkMask &&& (bb epT ||| bb capturedPawn)) ≠ 0#64 then
-        let capturers := canCapture &&& pawnAttacks epT player.other
-        pure ((BB.toList capturers).flatMap fun start =>
-          if !(mem diagPins start) || mem diagPins epT then
-            let b' := ((g.board.removeAt start).removeAt capturedPawn).setAt epT ⟨.pawn, player⟩
-            let inCheck := attackersOf b' player king != 0#64
-            if !inCheck then [Move.enPassant start epT] else []
-          else [])
-      else pure [])
+
+/-- the en-passant block of `generate_pawn_captures` -/
+def pawnEnPassant (g : Game) (pawns : BB) (king : Sq) (checkMask orthPins diagPins : BB) : Moves :=
+  let player := g.player
+  let canCapture := pawns &&& ~~~orthPins
+  match g.ep with
+  | none => some []
+  | some epT => do
+    let capturedPawn ← epT.backward player
+    if (checkMask &&& (bb epT ||| bb capturedPawn)) ≠ 0#64 then
+      let capturers := canCapture &&& pawnAttacks epT player.other
+      pure ((BB.toList capturers).flatMap fun start =>
+        if !(mem diagPins start) || mem diagPins epT then
+          let b' := ((g.board.removeAt start).removeAt capturedPawn).setAt epT ⟨.pawn, player⟩
+          let inCheck := attackersOf b' player king != 0#64
+          if !inCheck then [Move.enPassant start epT] else []
+        else [])
+    else pure []
+
+/-- `generate_pawn_captures` (includes queen promotion pushes and en passant) -/
+def pawnCaptures (g : Game) (pawns : BB) (king : Sq) (theirs all checkMask orthPins diagPins : BB) :
+    Moves := do
+  let m1 := pawnPromoCaptures g.player pawns theirs checkMask orthPins diagPins
+  let m2 ← pawnPromoPushes g.player [.queen] pawns all checkMask orthPins diagPins
+  let m3 := pawnPlainCaptures g.player pawns theirs checkMask orthPins diagPins
+  let m4 ← pawnEnPassant g pawns king checkMask orthPins diagPins
   pure (m1 ++ m2.flatten ++ m3 ++ m4)
 
-/-- `generate_pawn_quiets` -/
-def pawnQuiets (g : Game) (pawns : BB) (all checkMask orthPins diagPins : BB) : Moves := do
-  let player := g.player
+/-- single pushes of `generate_pawn_quiets` -/
+def pawnSinglePushes (player : Player) (pawns all checkMask orthPins diagPins : BB) : Option (List (List Move)) :=
+  let willPromote := Game.pawnBackRank player.other
+  (BB.toList (pawnCanPushOnce player pawns all checkMask diagPins &&& ~~~willPromote)).mapM fun pawn => do
+    let f1 ← pawn.forward player
+    pure (if !(mem orthPins pawn) || mem orthPins f1 then [Move.quiet pawn f1] else [])
+
+/-- double pushes of `generate_pawn_quiets` -/
+def pawnDoublePushes (player : Player) (pawns all checkMask orthPins diagPins : BB) : Option (List (List Move)) :=
   let canMove := pawns &&& ~~~diagPins
   let available := ~~~all &&& checkMask
   let singlePushAvail := BB.backward player available
-  let canPushOnce := canMove &&& singlePushAvail
-  let willPromote := Game.pawnBackRank player.other
-  let m1 ← (BB.toList (canPushOnce &&& willPromote)).mapM fun pawn => do
-    let t ← pawn.forward player
-    pure (if !(mem orthPins pawn) then promoOrderQuietUnder.map (Move.quietPromotion pawn t) else [])
   let backRank := Game.pawnBackRank player
-  let m2 ← (BB.toList (canPushOnce &&& ~~~willPromote)).mapM fun pawn => do
-    let f1 ← pawn.forward player
-    pure (if !(mem orthPins pawn) || mem orthPins f1 then [Move.quiet pawn f1] else [])
   let doubleBlockers := BB.backward player all
   let canPushTwice := canMove &&& backRank &&& ~~~doubleBlockers &&& BB.backward player singlePushAvail
-  let m3 ← (BB.toList canPushTwice).mapM fun pawn => do
+  (BB.toList canPushTwice).mapM fun pawn => do
     let f1 ← pawn.forward player
     let f2 ← f1.forward player
     pure (if !(mem orthPins pawn) || mem orthPins f2 then [Move.quiet pawn f2] else [])
+
+/-- `generate_pawn_quiets` -/
+def pawnQuiets (g : Game) (pawns : BB) (all checkMask orthPins diagPins : BB) : Moves := do
+  let m1 ← pawnPromoPushes g.player promoOrderQuietUnder pawns all checkMask orthPins diagPins
+  let m2 ← pawnSinglePushes g.player pawns all checkMask orthPins diagPins
+  let m3 ← pawnDoublePushes g.player pawns all checkMask orthPins diagPins
   pure (m1.flatten ++ m2.flatten ++ m3.flatten)
 
 def knightCaptures (knights theirs checkMask orthPins diagPins : BB) : List Move :=
